@@ -16,18 +16,34 @@ def tbl_text(r, qualify=None):
     return s + "." + r["n"]
 
 
-def exposed(r):
-    return r["al"] if r["al"] != "none" else r["n"]
+def exposed(r, spell=None):
+    return (spell or {}).get(r["al"], r["al"]) if r["al"] != "none" else r["n"]
 
 
-def ref_text(prog, ref, qualify=None):
+def ref_text(prog, ref, qualify=None, spell=None):
     c = ref["c"]
     if ref["r"] == 0:
         return c
     if ref["r"] == 9:
         # a qualifier that names nothing in scope is taken for a table name: textual qualification qualifies it like one
         return (qualify + "." if qualify else "") + "zz." + c
-    return exposed(prog["rels"][ref["r"] - 1]) + "." + c
+    return exposed(prog["rels"][ref["r"] - 1], spell) + "." + c
+
+
+def cte_ok(prog):
+    """derived tables can be written as CTEs read without an alias when their aliases are pairwise distinct statement-wide"""
+    als = [r["al"] for r in prog["rels"] if r["k"] == "sub"]
+    if prog["branch2"] and prog["branch2"][0].get("al", "none") != "none":
+        als.append(prog["branch2"][0]["al"])
+    # a CTE name captures every unqualified table of that name in the statement
+    unq = {r["n"] for r in prog["rels"] + prog["branch2"] if r["s"] == "none"}
+    return bool(als) and len(set(als)) == len(als) and not (unq & set(als))
+
+
+def inner_join_ok(prog, name):
+    """the name the extra inner table is read under must not clash inside the derived table (with its table's bare name)"""
+    n = name.split()[-1]
+    return all(r["n"] != n for r in prog["rels"] if r["k"] == "sub") and all(b["n"] != n for b in prog["branch2"])
 
 
 def expr(form, refs):
@@ -47,15 +63,33 @@ def expr(form, refs):
             "nested": "coalesce(cast(%s as varchar), upper(%s))" % (a, b)}[form]
 
 
-def render(prog, form1="plain", form2="arith", as_kw=True, qualify=None, join="join"):
+def render(prog, form1="plain", form2="arith", as_kw=True, qualify=None, join="join", paren_source=False, spell=None, cte=False,
+           inner_join=None, where_sub=None):
+    """spell: statement-local alias -> the text it is written as (renaming of statement-local names, C08);
+    cte: derived tables are written as CTEs and read without an alias; inner_join: the FROM of every derived table joins one
+    more table, read under that name (inner columns are then qualified with the inner table's bare name)"""
     rels = prog["rels"]
+    sp = spell or {}
+    cte = cte and cte_ok(prog)
+    if inner_join and not inner_join_ok(prog, inner_join):
+        inner_join = None
+    ctes = []
+
+    def sub_text(r, cols):
+        if inner_join:
+            return "select %s from %s join s.zj %s on 1 = 1" % (", ".join(r["n"] + "." + c for c in cols), tbl_text(r, qualify), inner_join)
+        return "select %s from %s" % (", ".join(cols), tbl_text(r, qualify))
     fr = []
     for i, r in enumerate(rels):
         if r["k"] == "tbl":
-            t = tbl_text(r, qualify) + ((" as " if as_kw else " ") + r["al"] if r["al"] != "none" else "")
+            t = tbl_text(r, qualify) + ((" as " if as_kw else " ") + sp.get(r["al"], r["al"]) if r["al"] != "none" else "")
         else:
-            inner = ", ".join(x["c"] + (" as " + x["al"] if x["al"] != "none" else "") for x in r["inner"])
-            t = "(select %s from %s)" % (inner, tbl_text(r, qualify)) + (" as " if as_kw else " ") + r["al"]
+            body = sub_text(r, [x["c"] + (" as " + x["al"] if x["al"] != "none" else "") for x in r["inner"]])
+            if cte:
+                ctes.append("%s as (%s)" % (sp.get(r["al"], r["al"]), body))
+                t = sp.get(r["al"], r["al"])
+            else:
+                t = "(%s)" % body + (" as " if as_kw else " ") + sp.get(r["al"], r["al"])
         if i == 0:
             fr.append(t)
         elif join == "comma":
@@ -64,23 +98,41 @@ def render(prog, form1="plain", form2="arith", as_kw=True, qualify=None, join="j
             fr.append(" %s %s on 1 = 1" % (join, t))
     its = []
     for it in prog["items"]:
-        refs = [ref_text(prog, x, qualify) for x in it["refs"]]
+        refs = [ref_text(prog, x, qualify, sp) for x in it["refs"]]
         e = expr(form1 if len(refs) <= 1 else form2, refs)
         if len(refs) == 1 and it["al"] == "none":
             e = refs[0]          # an un-aliased single reference keeps its own name only when written plainly
         its.append(e + (" as " + it["al"] if it["al"] != "none" else ""))
+    if prog["kind"] == "update":
+        # UPDATE tgt SET name = expression FROM relations [WHERE tgt.zid IN (SELECT zid FROM s.zq <a name of the outer scope>)]
+        sets = []
+        for it, e in zip(prog["items"], its):
+            name = it["al"] if it["al"] != "none" else it["refs"][0]["c"]
+            sets.append("%s = %s" % (name, e[:-len(" as " + it["al"])] if it["al"] != "none" else e))
+        w = " where tgt.zid in (select zid from s.zq %s)" % where_sub if where_sub else ""
+        return "%supdate %stgt set %s from %s%s" % ("with " + ", ".join(ctes) + " " if ctes else "", qualify + "." if qualify else "",
+                                                 ", ".join(sets), "".join(fr), w)
     sel = "select %s from %s" % (", ".join(its), "".join(fr))
     if prog["branch2"]:
         b = prog["branch2"][0]
-        sel += " union all select %s from %s" % (", ".join(b["cols"]), tbl_text(b, qualify))
+        if b.get("al", "none") != "none" and cte:
+            ctes.append("%s as (%s)" % (sp.get(b["al"], b["al"]), sub_text(b, b["cols"])))
+            sel += " union all select %s from %s" % (", ".join(b["cols"]), sp.get(b["al"], b["al"]))
+        elif b.get("al", "none") != "none":
+            sel += " union all select %s from (%s) as %s" % (", ".join(b["cols"]), sub_text(b, b["cols"]), sp.get(b["al"], b["al"]))
+        else:
+            sel += " union all select %s from %s" % (", ".join(b["cols"]), tbl_text(b, qualify))
     tgt = (qualify + "." if qualify else "") + "tgt"
     if prog.get("tk"):
         tgt = "s.tgt"
+    if paren_source and prog["kind"] != "ctas" and not ctes:
+        sel = "(" + sel + ")"           # INSERT INTO t (SELECT ...): a parenthesised source query
+    w = "with " + ", ".join(ctes) + " " if ctes else ""
     if prog["kind"] == "ctas":
-        return "create table %s as %s" % (tgt, sel)
+        return "create table %s as %s%s" % (tgt, w, sel)
     if prog["kind"] == "insert_cols":
-        return "insert into %s (%s) %s" % (tgt, ", ".join(prog["collist"]), sel)
-    return "insert into %s %s" % (tgt, sel)
+        return "%sinsert into %s (%s) %s" % (w, tgt, ", ".join(prog["collist"]), sel)
+    return "%sinsert into %s %s" % (w, tgt, sel)
 
 
 def metadata_of(prog):
